@@ -35,7 +35,12 @@ AllowedHere(p, e) ==
       [] p = "C04" /\ e.ev \in {"Overshoot", "Settled"} ->
             \* between maintenance runs: at most the write queue plus one entry per inserting thread
             IF e.cap = None THEN TRUE
-            ELSE IF e.ev = "Overshoot" THEN e.count <= e.cap + e.wlog + e.threads
+            ELSE IF e.ev = "Overshoot"
+            THEN \* exact counts are taken by the controller while every thread is parked; a count taken
+                 \* by iterating beside running writers is not a snapshot (entries inserted and evicted
+                 \* during the walk can both be seen), so it is only required to stay bounded
+                 IF "exact" \in DOMAIN e /\ e.exact THEN e.count <= e.cap + e.wlog + e.threads
+                 ELSE e.count <= e.cap + 2 * (e.wlog + e.threads)
             ELSE e.count <= e.cap
       [] p = "C03" -> e.ev = "Refill" => e.kept = e.want
       [] p \in SeqProps ->
